@@ -7,3 +7,5 @@ import P2P.Props.C14
 #print axioms P2P.Props.C14.near_exact
 #print axioms P2P.Props.C14.near_nodup
 #print axioms P2P.Props.C14.near_in_range
+#print axioms P2P.Props.C14.near_within_cutoff
+#print axioms P2P.Props.C14.cutoff_beyond_cell_size_refuted
